@@ -171,6 +171,12 @@ class Interp:
             if meth == "dot":
                 f = ufun(f"dot!{next(_cnt)}", 1)
                 return Arr(a.lead, lambda *i, a=a, f=f: f(a.at(*i)), None)       # contracts trailing axes with a shared operand: per-row map
+            if meth in ("swapaxes", "transpose") and len(a.lead) == 2:
+                ax = tuple(args[0]) if len(args) == 1 and isinstance(args[0], (tuple, list)) else tuple(args)
+                if meth == "swapaxes" and sorted(ax) == [0, 1] or meth == "transpose" and len(ax) >= 2 and ax[:2] == (1, 0) and all(k == i for i, k in enumerate(ax[2:], 2)):
+                    return Arr((a.lead[1], a.lead[0]), lambda i, j, a=a: a.at(j, i), a.trail)       # exchange of the two leading (batch, walker) axes
+                if meth == "transpose" and len(ax) >= 2 and ax[:2] == (0, 1):
+                    return Arr(a.lead, a.fn, None)       # payload-only transpose
             raise Unsupported("idx: array method " + meth)
         if name in ("vmap", "jax.vmap"):
             return ("vmap", args[0], kw.get("in_axes", args[1] if len(args) > 1 else 0))
@@ -405,6 +411,38 @@ def replay(o):
     o["replayed"] = bool(max(worst, worst_r) > 1e-9)
     o["witness"] = dict(model=o.get("witness"), native=dict(n_walkers=nw, batch_counts=[1, 2, 3, 6], uhf_list_walkers_max_deviation_batched_vs_per_walker=worst,
                                                           rhf_array_walkers_max_deviation_batched_vs_per_walker=worst_r))
+
+
+def replay_trotprop(o):
+    """native replay of an IDX refutation on _apply_trotprop: the population propagated in 2, 3 and 6 batches against the same population propagated
+    in ONE batch (6 walkers, same fields), restricted and unrestricted"""
+    import numpy as np
+    from contracts import native
+    native.setup()
+    import jax.numpy as jnp
+    from ad_afqmc import propagation
+    rng = np.random.default_rng(4)
+    norb, nchol, nw = 3, 2, 6
+    L = rng.normal(size=(nchol, norb, norb)) * 0.3
+    L = L + L.transpose(0, 2, 1)
+    e1 = np.eye(norb) + 0.05 * rng.normal(size=(norb, norb))
+    hd = {"chol": jnp.array(L.reshape(nchol, -1)), "exp_h1": jnp.array([e1, e1.T])}
+    hd_r = {"chol": hd["chol"], "exp_h1": jnp.array(e1)}
+    x = jnp.array(rng.normal(size=(nw, nchol)))
+    wu = jnp.array(rng.normal(size=(nw, norb, 2)) + 1j * rng.normal(size=(nw, norb, 2)))
+    wd = jnp.array(rng.normal(size=(nw, norb, 1)) + 1j * rng.normal(size=(nw, norb, 1)))
+    res = {}
+    for name, cls, walk, h in (("unrestricted", propagation.propagator_unrestricted, [wu, wd], hd), ("restricted", propagation.propagator_restricted, wu, hd_r)):
+        ref = cls(dt=0.05, n_walkers=nw, n_batch=1)._apply_trotprop(h, walk, x)
+        ref = [np.asarray(r) for r in (ref if isinstance(ref, (list, tuple)) else [ref])]
+        worst = 0.0
+        for nb in (2, 3, 6):
+            got = cls(dt=0.05, n_walkers=nw, n_batch=nb)._apply_trotprop(h, walk, x)
+            got = [np.asarray(g) for g in (got if isinstance(got, (list, tuple)) else [got])]
+            worst = max(worst, max(float(np.max(np.abs(g.reshape(r.shape) - r))) for g, r in zip(got, ref)))
+        res[name] = worst
+    o["replayed"] = bool(max(res.values()) > 1e-9)
+    o["witness"] = dict(model=o.get("witness"), native=dict(n_walkers=nw, batch_counts=[2, 3, 6], reference="n_batch = 1", max_deviation=res))
 
 
 def lane():
